@@ -131,6 +131,7 @@ func TestC11(t *testing.T) {
 		}
 	})
 	c11Concurrent(run)
+	c11FirstEvents(run)
 }
 
 func TestC17(t *testing.T) {
